@@ -106,7 +106,7 @@ macro_rules! mutex_seq {
   };
 }
 mutex_seq!(c10_t_mutex_seq_n3, 3, 5);
-mutex_seq!(c10_t_mutex_seq_n6, 6, 7);
+mutex_seq!(c10_x_mutex_seq_n6, 6, 7);
 
 // ---------------------------------------------------------------- rwlock sequential
 type RFut = Pin<Box<dyn Future<Output = ReadGuard<'static, u8>>>>;
@@ -227,8 +227,8 @@ macro_rules! rwlock_seq {
     }
   };
 }
-rwlock_seq!(c10_t_rwlock_seq_n3, 3, 5);
-rwlock_seq!(c10_t_rwlock_seq_n6, 6, 7);
+rwlock_seq!(c10_x_rwlock_seq_n3, 3, 5);
+rwlock_seq!(c10_x_rwlock_seq_n6, 6, 7);
 
 // ---------------------------------------------------------------- nested preemption
 static MG: AtomicPtr<Option<MutexGuard<'static, u8>>> = AtomicPtr::new(std::ptr::null_mut());
@@ -338,7 +338,7 @@ fn c10_t_mutex_cancel_vs_unlock() {
 /// Same with the roles swapped: release on top, cancel injected.
 #[kani::proof]
 #[kani::unwind(5)]
-fn c10_t_mutex_unlock_vs_cancel() {
+fn c10_x_mutex_unlock_vs_cancel() {
   let m_stack = HybridMutex::new(0u8);
   let m: &'static HybridMutex<u8> = unsafe { &*(&m_stack as *const HybridMutex<u8>) }; // on the stack: CBMC tracks stack objects precisely
   let mut held = m.try_lock();
@@ -425,7 +425,7 @@ fn c10_x_rw_read_vs_write_unlock() {
 /// writer must end up woken (cancel on top, release injected).
 #[kani::proof]
 #[kani::unwind(5)]
-fn c10_t_rw_cancel_writer_vs_unlock() {
+fn c10_x_rw_cancel_writer_vs_unlock() {
   let l_stack = HybridRwLock::new(0u8);
   let l: &'static HybridRwLock<u8> = unsafe { &*(&l_stack as *const HybridRwLock<u8>) };
   let mut held = l.try_write();
@@ -453,7 +453,7 @@ fn c10_t_rw_cancel_writer_vs_unlock() {
 /// Roles swapped: release on top, cancel injected.
 #[kani::proof]
 #[kani::unwind(5)]
-fn c10_t_rw_unlock_vs_cancel_writer() {
+fn c10_x_rw_unlock_vs_cancel_writer() {
   let l_stack = HybridRwLock::new(0u8);
   let l: &'static HybridRwLock<u8> = unsafe { &*(&l_stack as *const HybridRwLock<u8>) };
   let mut held = l.try_write();
@@ -620,8 +620,8 @@ macro_rules! rw_try_matrix {
     }
   };
 }
-rw_try_matrix!(c10_t_rw_try_matrix_n3, 3, 4);
-rw_try_matrix!(c10_t_rw_try_matrix_n5, 5, 6);
+rw_try_matrix!(c10_x_rw_try_matrix_n3, 3, 4);
+rw_try_matrix!(c10_x_rw_try_matrix_n5, 5, 6);
 
 /// Same for the mutex: try_lock succeeds exactly when no guard exists.
 #[kani::proof]
@@ -657,7 +657,7 @@ fn c10_q_mutex_try_matrix_n5() {
 /// is dropped: the queued reader must be woken (and acquires).
 #[kani::proof]
 #[kani::unwind(5)]
-fn c10_t_rw_cancelled_writer_then_reader_woken() {
+fn c10_x_rw_cancelled_writer_then_reader_woken() {
   let l = HybridRwLock::new(0u8);
   let held = l.try_read();
   assert!(held.is_some(), "C10: try_read failed on a free lock");
